@@ -443,9 +443,38 @@ class _PureLocals:
             v = st.value
             if isinstance(v, (ast.Constant, ast.Name)) and not isinstance(v, ast.Name):
                 continue  # plain constants keep their name (counters, sentinels)
-            if not all(isinstance(x, self.PURE) for x in ast.walk(v)):
-                continue
-            if any(isinstance(x, ast.Name) and not ((x.id in params and x.id not in stores) or x.id in single) for x in ast.walk(v)):
+            kwdict = None
+            if isinstance(v, ast.Dict) and v.keys and all(isinstance(k, ast.Constant) and isinstance(k.value, str) for k in v.keys):
+                kwdict = list(v.values)
+            elif isinstance(v, ast.Call) and isinstance(v.func, ast.Name) and v.func.id == 'dict' and not v.args and v.keywords and all(k.arg for k in v.keywords):
+                kwdict = [k.value for k in v.keywords]
+            if kwdict is not None:
+                # a keyword dictionary that is only ever unpacked (f(**name)): read-only, propagate like a pure value
+                if not all(isinstance(parent.get(id(u)), ast.keyword) and parent[id(u)].arg is None for u in loads.get(name, [])):
+                    continue
+                if not all(isinstance(x, self.PURE) for e in kwdict for x in ast.walk(e)):
+                    continue
+                probe = kwdict
+            else:
+                if not all(isinstance(x, self.PURE) for x in ast.walk(v)):
+                    continue
+                probe = [v]
+            dpos0 = order[id(st)]
+            uses0 = loads.get(name, [])
+            last_use = max([order[id(u)] for u in uses0], default=dpos0)
+
+            def stable(x):
+                # the name denotes the same value at the definition and at every use: never stored, stored once, or
+                # every store lies before the definition and shares no loop with a use
+                if (x.id in params and x.id not in stores) or x.id in single:
+                    return True
+                if x.id in nested or (x.id not in params and x.id not in stores):
+                    return x.id not in stores and x.id not in nested  # a global / builtin name
+                for s_ in stores.get(x.id, []):
+                    if order[id(s_)] > dpos0 or any(set(loops_of(s_)) & set(loops_of(u)) for u in uses0):
+                        return False
+                return True
+            if any(isinstance(x, ast.Name) and x.id != 'dict' and not stable(x) for e in probe for x in ast.walk(e)):
                 continue
             if any(isinstance(x, ast.Name) and x.id == name for x in ast.walk(v)):
                 continue
